@@ -11,7 +11,9 @@ CHECK = {
              '"two-offsets" scopes the two trees link elements through different embedded nodes (an element can be held by '
              'both), so swap has to carry the node offset. Plus seeded random histories (2000-6000 calls, pools of 3-256 '
              'elements, 1-64 key values, ascending/descending/organ-pipe/random fill phases and alternating/ascending/'
-             'descending/random drain phases). After every call the return value is compared with a reference multiset of '
+             'descending/random drain phases), plus 2 (quick) / 8 (thorough) deep degenerate plain trees: a spine of 4200-6000 '
+             'ascending or descending keys (optionally with equal keys) with zig-zag children below depth 4100, then finds, '
+             'erases and early-stop traversals down there. After every call the return value is compared with a reference multiset of '
              'element addresses; erased elements are poisoned and freed; the full audit (size, FWD+REV traversal with '
              'per-element PRE/MID/POST/LEAF state machine and monotonicity, link walker) runs after every call in closure mode '
              'and every 16th call in random mode. A case is distinct by the tree signature (shape + key per node, + colour for '
